@@ -24,6 +24,7 @@ type pipe struct {
 	feeders []func()             // feeder tasks (channel sources)
 	inputs  []*fun.Iterator[int] // upstream iterators (closed by nobody but the construct)
 	w       int
+	stalled bool // a source stalls (C04 stop modes)
 }
 
 // stall lets the scheduler interleave here, one to three times.
@@ -34,8 +35,33 @@ func stall() {
 	}
 }
 
+// pipeStall, when >= 0, makes channel-fed sources stall: the feeder delivers
+// that many items and then never sends again (nor closes) until pipeRelease
+// is closed. Set by C04's stop modes only: a consumer is then blocked inside
+// ReadOne, on an input that is merely slow, when the stop arrives.
+var (
+	pipeStall   = -1
+	pipeRelease chan struct{}
+)
+
 // source builds an iterator over items from a tape-chosen kind of source.
 func source(p *pipe, items []int) *fun.Iterator[int] {
+	if pipeStall >= 0 {
+		stallAt, release := pipeStall, pipeRelease
+		ch := make(chan int)
+		p.feeders = append(p.feeders, func() {
+			for k, v := range items {
+				if k == stallAt {
+					hrecv(release)
+					return
+				}
+				hsend(ch, v)
+			}
+			hrecv(release)
+		})
+		p.stalled = true
+		return fun.ChannelIterator(ch)
+	}
 	switch simrt.Choose(3) {
 	case 0:
 		return fun.SliceIterator(append([]int{}, items...))
